@@ -64,6 +64,7 @@ func (fc *FnCtx) call(st *State, e *ast.CallExpr) []Term {
 	var fn *types.Func
 	if f, ok := callee.(*types.Func); ok {
 		fn = f
+		fc.lockOp(st, e, fn)
 	}
 	if sel, ok := ast.Unparen(e.Fun).(*ast.SelectorExpr); ok {
 		if s, ok := info.Selections[sel]; ok && s.Kind() == types.MethodVal {
@@ -312,6 +313,7 @@ func (fc *FnCtx) havocForCall(st *State, fn *types.Func, name string) []string {
 	na := fc.freshSort("alloc", SInt)
 	fc.assume(st, boolT(fmt.Sprintf("(>= %s %s)", na.S, cur.S)))
 	fc.set(st, allocKey, na)
+	fc.structValsAllocated(st)
 	// escaped locals may be written through their address
 	for obj := range fc.escaped {
 		if _, ok := st.vars[obj]; ok {
@@ -640,6 +642,9 @@ func (fc *FnCtx) builtin(st *State, e *ast.CallExpr, name string) []Term {
 		r := fc.alloc(st, "new", t)
 		return []Term{r}
 	case "delete":
+		if gv := fc.guardedIdent(e.Args[0]); gv != nil {
+			fc.guardAccess(st, gv, true, e.Pos())
+		}
 		m := fc.expr(st, e.Args[0])
 		mt := fc.typeOf(e.Args[0]).Underlying().(*types.Map)
 		k := fc.valueFor(st, e.Args[1], mt.Key())
